@@ -89,6 +89,7 @@ class Contract:
         self.lemmas_at = kw.pop("lemmas_at", {})
         self.unroll = kw.pop("unroll", {})          # loop ordinal -> max iterations (bounded proof, P<=n)
         self.scenarios = kw.pop("scenarios", None)
+        self.ensures_on_raise = kw.pop("ensures_on_raise", [])   # clauses that must hold whenever the function exits by an exception (state left behind)
         self.assumes = kw.pop("assumes", [])        # object invariants of parsed notation objects ASSUMED at entry (not obligations of callers): established by
                                                     # constructors outside the engine's reach, checked natively by the bounded drivers, listed in evidence
         self.assert_at = kw.pop("assert_at", {})   # anchor (first line of a statement) -> [clauses] proved right after that statement ("site" obligations: what holds at a decision site)
